@@ -343,8 +343,11 @@ def sample_segment(lat1, lon1, lat2, lon2, lat_g, lon_g, M):
     return order, shares, curve, seg
 
 
+OLDER_ROUTE = 'cells_touched_by_trajectory_with_state_and_integrated_variables'
+
+
 def run_gridder(Gridder, lat_g, lon_g, alt_g, tim_g, lats, lons, alts, times, state, integ,
-                reuse_rng=None):
+                reuse_rng=None, route='grid_trajectory'):
     if reuse_rng is None:
         g = Gridder(grid_latitudes=lat_g, grid_longitudes=lon_g, grid_altitudes=alt_g,
                     grid_times=tim_g)
@@ -364,7 +367,7 @@ def run_gridder(Gridder, lat_g, lon_g, alt_g, tim_g, lats, lons, alts, times, st
         g.grid_latitudes, g.grid_longitudes = lat_g, lon_g
         g.grid_altitudes, g.grid_times = alt_g, tim_g
     seg_idx = np.arange(len(lats), dtype=float)
-    out = g.grid_trajectory(lats, lons, alts, times, (seg_idx,) + tuple(state), tuple(integ))
+    out = getattr(g, route)(lats, lons, alts, times, (seg_idx,) + tuple(state), tuple(integ))
     return out
 
 
@@ -436,13 +439,25 @@ def make_case(rng, k, M):
     c.input_mutated, c.regrid_differs = [], False
     before = [np.array(x, copy=True) for x in [c.lats, c.lons] + c.state + c.integ]
     c.reused_gridder = rng.random() < 0.2
+    # the gridder's two public entry points (grid_trajectory is documented as the refactored
+    # version of the older one; same arguments, same result tuple)
+    c.route = OLDER_ROUTE if random.Random(f'route-{k}-{n}-{c.kind}').random() < 0.25 \
+        else 'grid_trajectory'
+    c.desc['entry_point'] = c.route
     try:
         c.out = run_gridder(grid_mod.Gridder, c.lat_g, c.lon_g, c.alt_g, c.tim_g, c.lats,
                             c.lons, c.alts, c.times, c.state, c.integ,
                             reuse_rng=random.Random(rng.getrandbits(32)) if c.reused_gridder
-                            else None)
+                            else None, route=c.route)
     except Exception as e:  # noqa: BLE001
         c.error = f'{type(e).__name__}: {str(e)[:200]}'
+        return c
+    if c.out is None or c.out[0] is None:
+        # the older entry point answers "not implemented" (all None, with a warning) for tracks
+        # that cross the antimeridian more than once; those cases are not judged anyway
+        if c.n_cross <= 1:
+            c.error = 'the gridder returned None instead of cells'
+        c.pieces = {}
         return c
     after = [c.lats, c.lons] + c.state + c.integ
     c.input_mutated = [i for i, (a, b) in enumerate(zip(before, after))
@@ -452,7 +467,7 @@ def make_case(rng, k, M):
     c.regrid_differs = False
     if rng.random() < 0.3:
         out2 = run_gridder(grid_mod.Gridder, c.lat_g, c.lon_g, c.alt_g, c.tim_g, c.lats,
-                           c.lons, c.alts, c.times, c.state, c.integ)
+                           c.lons, c.alts, c.times, c.state, c.integ, route=c.route)
         c.regrid_differs = any(len(a) != len(b) or not np.allclose(a, b, rtol=1e-12, atol=0)
                                for a, b in zip(c.out[5], out2[5]))
     cl, co, ca, ct, sv, iv = c.out
